@@ -3,6 +3,7 @@ from props import comps_yl as Y
 
 PID = "C19"
 LEVEL = "proof"
+ASAN_QUICK = True
 
 
 def components():
